@@ -14,7 +14,7 @@ from . import vhdl_sim as VS
 
 HEADER = '''from __future__ import annotations
 import cohdl
-from cohdl import Bit, BitVector, Unsigned, Signed, Port, Signal, Variable, Temporary, Null, Full, std
+from cohdl import Bit, BitVector, Unsigned, Signed, Array, Port, Signal, Variable, Temporary, Null, Full, std
 from cohdl import true, false
 '''
 
